@@ -362,6 +362,23 @@ def global_fingerprint():
     return core.digest([langs, Configuration.exclude, Configuration.verbose, str(Configuration.repository), len(logging.getLogger().handlers)])
 
 
+ENC_TREES = {
+    # a file that is not valid UTF-8 (read through the Latin-1 fallback) ...
+    "latin": {"l.py": ("# caf\xe9\n" + harness.py_function("caf\xe9_latin", 4)).encode("latin-1")},
+    # ... and a UTF-8 file whose function NAME is not ASCII: reading it with another decoding changes the result
+    "utf8": {"u.py": "# caf\u00e9 \u65e5\u672c\n" + harness.py_function("caf\u00e9_utf8", 5), "v.js": harness.js_function("gr\u00f6\u00dfe", 4)},
+}
+
+
+def scan_tree(files):
+    from codelimit.common.Scanner import scan_path
+
+    with harness.temp_tree(files) as root:
+        harness.reset_globals()
+        cb = scan_path(root)
+        return sorted((k, e.language, oracle.as_tuples(e.measurements())) for k, e in cb.files.items())
+
+
 def step_result(item_idx, tmp: Path):
     """execute menu item; returns comparable result"""
     from codelimit.commands.check import check_command
@@ -372,6 +389,10 @@ def step_result(item_idx, tmp: Path):
         lang, text = p[item_idx]
         return measure(lang, text)
     kind = item_idx - len(p)
+    if kind == 2:
+        return scan_tree(ENC_TREES["latin"])
+    if kind == 3:
+        return scan_tree(ENC_TREES["utf8"])
     if kind == 0:
         cb = scan_path(tmp)
         return sorted((k, oracle.as_tuples(e.measurements())) for k, e in cb.files.items())
@@ -381,7 +402,7 @@ def step_result(item_idx, tmp: Path):
 
 
 def menu_size():
-    return len(pool()) + 2
+    return len(pool()) + 4
 
 
 def run_history(seq):
@@ -456,8 +477,16 @@ def eval_history(seq, refs):
 # (d) supplementary real-seed differential
 # ---------------------------------------------------------------------------------------
 
+NEG_TREE = {
+    ".gitignore": "generated/*\n!generated/keep.py\n!dist\n*.js\n!src/keep.js\nbuild\n!build/x.py\n",
+    "generated/keep.py": harness.py_function("keep", 3), "generated/drop.py": harness.py_function("drop", 3),
+    "dist/d.py": harness.py_function("dist_fn", 3), "src/keep.js": harness.js_function("keepJs", 3), "src/drop.js": harness.js_function("dropJs", 3),
+    "build/x.py": harness.py_function("bx", 3), "a.py": harness.py_function("a", 3),
+}
+
+
 def corpus_digest(order):
-    items = []
+    items = [("scan-with-negated-exclusions", "", scan_tree(NEG_TREE))]
     for lang in (canon.LANGS if order == 0 else list(reversed(canon.LANGS))):
         for t in probes(lang):
             items.append((lang, hashlib.md5(t.encode()).hexdigest(), measure(lang, t)))
@@ -475,7 +504,7 @@ def one_digest(hs, order):
 
 
 def hash_seeds(seed):
-    return ["0", "1", "2", "3", str(1000 + seed % 1000), "random"]
+    return ["0", "1", "2", "3", "4", "5", "6", "7", str(1000 + seed % 1000), "random"]
 
 
 def seed_differential(seed):
